@@ -24,7 +24,8 @@ def replayer(fn):
 
 def catching(fn, *a, **kw):
     try:
-        return ('ok', fn(*a, **kw))
+        with real.deadline(8):
+            return ('ok', fn(*a, **kw))
     except real.Hang:
         real.note_hang('%s%r' % (getattr(fn, '__name__', fn), a)[:400], fn, a)
         return ('hang', None)
